@@ -170,7 +170,11 @@ def cgnr(A, b, x0=None, tol=1e-5, criteria='rr',
         w = A @ p
 
         # alpha = (z_j, rhat_j) / (w_j, w_j)
-        alpha = old_zr / np.inner(w.conjugate(), w)
+        ww = np.inner(w.conjugate(), w)
+        if ww == 0.0:
+            warn('\nBreakdown in CGNR (vanishing search direction), aborting\n')
+            return (postprocess(x), -1)
+        alpha = old_zr / ww
 
         # x_{j+1} = x_j + alpha*p_j
         x += alpha * p
